@@ -3,6 +3,8 @@
 //! Module containing versions of the standard library's [`Read`](std::io::Read) and
 //! [`Write`](std::io::Write) traits compatible with volatile memory accesses.
 
+#[cfg(all(vm_memory_verif, feature = "rawfd"))]
+use crate::verif::sys as libc;
 use crate::bitmap::BitmapSlice;
 use crate::volatile_memory::copy_slice_impl::{copy_from_volatile_slice, copy_to_volatile_slice};
 use crate::{VolatileMemoryError, VolatileSlice};
